@@ -249,7 +249,7 @@ func execC08L(c *Ctx) {
 	p := c.Plan
 	lv := int(p.param("leaver", 0))
 	mon := &c08lmon{lv: lv, leftSeen: map[int]uint32{}}
-	cx := startClusterRun(c, mon, newEventMon(), &healthMon{})
+	cx := startClusterRun(c, mon, newEventMon(), &healthMon{}, newSelfMon())
 	L := cx.node(lv)
 	// tap: self-signed dead messages sent by L
 	type sent struct {
